@@ -33,6 +33,21 @@ def _ballot_loop_var(f, contains="ballots"):
     raise AnalysisError(f"anchor-missing: ballot loop in {f.short}")
 
 
+def _own_validator(prog, cls_name, hint):
+    """The class's own ballot validator, found by what it does (a loop over <param>.ballots raising TypeError), not by its name."""
+    cls = prog.find_class(cls_name)
+    hits = []
+    for m in cls.methods.values():
+        if m.name == "__init__" or isinstance(m.node, ast.Lambda) or len(m.params) < 2:
+            continue
+        loops = [n for n in astx.walk_own(m.node) if isinstance(n, ast.For) and astx.u(n.iter) == f"{m.params[1]}.ballots"]
+        if loops and any(astx.raise_type(r) == "TypeError" for r in astx.raises_in(m.node)):
+            hits.append(m)
+    if len(hits) != 1:
+        raise AnalysisError(f"anchor-missing: {cls_name}: expected one own ballot validator ({hint}), found {[m.name for m in hits]}")
+    return hits[0]
+
+
 def _rn(mapping):
     """rename: exact unparse text -> symbol"""
     def rename(e):
@@ -54,20 +69,20 @@ def r1_ballot_data(ctx):
               astx.stmt_of(vc[0], astx.parents(el.node)) is [s for s in el.node.body if not (isinstance(s, ast.Expr) and isinstance(s.value, ast.Constant))][0],
               el, vc[0] if vc else el.node, "Election.__init__ validates the profile first, then runs", "", "validation is not the first action of Election.__init__")
     # 2,3 STV
-    f = prog.find_func("STV._stv_validate_profile")
+    f = _own_validator(prog, "STV", "_stv_validate_profile")
     b = _ballot_loop_var(f)
     obligation(ctx, f, "row 2: STV rejects ballots without ranking (TypeError, every ballot)", "not b.ranking", "TypeError", rename=_rn({b: "b"}), forall=True)
     obligation(ctx, f, "row 3: STV rejects tied positions (TypeError, every ballot)", "any(len(s) > 1 for s in b.ranking)", "TypeError", rename=_rn({b: "b"}), forall=True)
     init = prog.find_func("STV.__init__")
-    called_before(ctx, init, "_stv_validate_profile", "STV validates its profile before anything else", first_arg=init.params[1])
+    called_before(ctx, init, f.name, "STV validates its profile before anything else", first_arg=init.params[1])
     # 4,5 PluralityVeto
-    f = prog.find_func("PluralityVeto._pv_validate_profile")
+    f = _own_validator(prog, "PluralityVeto", "_pv_validate_profile")
     b = _ballot_loop_var(f)
     obligation(ctx, f, "row 4: PluralityVeto rejects ballots without ranking (TypeError, every ballot)", "not b.ranking", "TypeError", rename=_rn({b: "b"}), forall=True)
     obligation(ctx, f, "row 5: PluralityVeto rejects non-integer weights (TypeError, every ballot)", "int(b.weight) != b.weight", "TypeError",
                rename=_rn({b: "b"}), forall=True)
     init = prog.find_func("PluralityVeto.__init__")
-    called_before(ctx, init, "_pv_validate_profile", "PluralityVeto validates its profile before anything else", first_arg=init.params[1])
+    called_before(ctx, init, f.name, "PluralityVeto validates its profile before anything else", first_arg=init.params[1])
     # 6,7 transfers
     for name in ("random_transfer", "fractional_transfer"):
         f = prog.find_func(name)
